@@ -97,6 +97,9 @@ def build(spec):
             a = b.get("attr") or b.get("args")
             a["usr_note"] = f"n{r}"
             b["custom_top"] = 7
+            if "attr" in b and "args" not in b and spec.get("both_dicts", True):
+                # a device event that carries BOTH the runtime's `attr` dict and user-supplied `args` keys
+                b["args"] = {"usr_args": f"a{r}"}
         hu = [0]
 
         def host(name, tid, t0, t1, x_form=False, extra=None):
@@ -153,5 +156,7 @@ def build(spec):
             dur = (e["ts"] - b["ts"]) if e is not None else b["dur"]
             slices.append({"uid": a["uid"], "rank": r, "name": b["name"], "tid": b["tid"], "ts": b["ts"], "dur": dur,
                            "device": "attr" in b, "file": fname,
-                           "user_keys": {"usr_note": a["usr_note"], "custom_top": 7}})
+                           "user_keys": {"usr_note": a["usr_note"], "custom_top": 7,
+                                         **({"usr_args": b["args"]["usr_args"]}
+                                            if "attr" in b and "usr_args" in b.get("args", {}) else {})}})
     return files, slices
